@@ -210,7 +210,7 @@ def check_project(proj: Dict[str, Any], order_pick: Optional[int] = None) -> Tup
 
 def plan(tier: str, seed: int, scale: float = 1.0) -> List[Any]:
     n = ncpu()
-    total = int((400 if tier == 'quick' else 5000) * scale)
+    total = int((800 if tier == "quick" else 6000) * scale)
     return [{'n': max(1, total // n), 'seed': seed * 1000 + i} for i in range(n)]
 
 
